@@ -115,6 +115,25 @@ fn observe(case: &Case) -> Option<Observed> {
     Some(Observed { reject: m.has_reject_codes(), ret: m.has_return_codes(), cover: m.is_cover_message(), stp: m.is_stp_message(), method })
 }
 
+/// The same message taken through its JSON form, with the message type spelled as the parser writes it and as
+/// the publish function also accepts it ("MT202"): the predicates of the value read back
+fn observe_json(case: &Case) -> Vec<(String, (bool, bool, bool, bool))> {
+    let mut out = Vec::new();
+    let Some(ops) = msg(&case.mt) else { return out };
+    let Ok(Ok(m)) = guard(|| (ops.parse_full)(&case.text)) else { return out };
+    let Ok(Ok(j)) = guard(|| m.json()) else { return out };
+    for spelled in [case.mt.clone(), format!("MT{}", case.mt)] {
+        let mut j2 = j.clone();
+        if j2.get("message_type").is_some() {
+            j2["message_type"] = Value::String(spelled.clone());
+        }
+        if let Ok(Ok(m2)) = guard(|| (ops.full_from_json)(&j2)) {
+            out.push((spelled, (m2.has_reject_codes(), m2.has_return_codes(), m2.is_cover_message(), m2.is_stp_message())));
+        }
+    }
+    out
+}
+
 pub fn judge(case: &Case, l: &mut Local, peers: Option<&[(String, Observed)]>) {
     let ty = if supporting(&case.mt) { format!("MT{}", case.mt) } else { "other-types".to_string() };
     let stratum = format!("{ty}");
@@ -123,6 +142,15 @@ pub fn judge(case: &Case, l: &mut Local, peers: Option<&[(String, Observed)]>) {
         return;
     };
     l.eval(&stratum, &format!("method={}", o.method), true, hash_bytes2(&case.mt, &case.text));
+    // JSON route: the value read back from the message's own JSON is classified like the parsed message
+    if supporting(&case.mt) {
+        for (spelled, (rj, rt, cv, st)) in observe_json(case) {
+            if (rj, rt, cv, st) != (o.reject, o.ret, o.cover, o.stp) {
+                let which = if rj != o.reject { "reject" } else if rt != o.ret { "return" } else if cv != o.cover { "cover" } else { "stp" };
+                v(l, &ty, "json-route-classified-differently", &format!("{which}:message_type={}", if spelled.starts_with("MT") { "MTnnn" } else { "nnn" }), format!("{ty}: parsed from text reject={} return={} cover={} stp={}; read back from its own JSON (message_type {spelled:?}) reject={rj} return={rt} cover={cv} stp={st}", o.reject, o.ret, o.cover, o.stp), case);
+            }
+        }
+    }
     let f72 = case.f72.as_deref();
     let mur = case.mur.as_deref();
     let at72 = F72.iter().find(|(_, t)| Some(*t) == f72).map(|x| x.0).unwrap_or("?");
